@@ -27,7 +27,8 @@ public:
     [[nodiscard]] virtual arr_cmplx solve(const arr_cmplx& x) const = 0;
     virtual void solve(const cmplx_t* x, cmplx_t* y, int n) const {
         const auto r = this->solve(arr_cmplx(x, n));
-        std::memcpy(y, r.data(), n * sizeof(cmplx_t));
+        //a chirp-z plan may return fewer than n bins
+        std::memcpy(y, r.data(), std::min(n, r.size()) * sizeof(cmplx_t));
     }
     [[nodiscard]] virtual int size() const noexcept = 0;
 };
